@@ -6,6 +6,7 @@
       DCS strings ([ignored], [C18_ignored])
    7. the implemented actions are silent ([silent], [C18_silent_iff])            *)
 Require Import Tac ListN Utf8 Attrs Cell Row Grid Screen Vte Perform Parser.
+Require Import Chunking.
 Open Scope N_scope.
 
 (* ------------------------------------------------------------------ *)
@@ -457,9 +458,9 @@ Qed.
    parsed actions, in stream order *)
 Theorem C18_process : forall p bs q,
   process p bs = Ok q ->
-  log q = log p ++ events_all (resizing p) (scr p) (snd (advance (vt p) bs)).
+  log q = log p ++ events_all (resizing p) (scr p) (snd (advance (vt p) (delivered p bs))).
 Proof.
-  intros p bs q H. unfold process in H. destruct (advance (vt p) bs) as [v acts]. cbn [snd].
+  intros p bs q H. rewrite process_unfold in H. destruct (advance (vt p) _) as [v acts]. cbn [snd].
   bind_inv H. destruct v0 as [s evs]. inv H. cbn [log].
   apply C18_exact_all in E. rewrite E. reflexivity.
 Qed.
